@@ -99,6 +99,58 @@ def corr_select(ctx, n_cases, with_pairs=True):
         cases.append((n, atoms, fr, letters, entries))
         ctx.count("select_norms_%s" % ("0" if not entries else "1-3" if len(entries) <= 3 else ">3"))
     out = driver(lines)
+    mism = _run_select_cases(ctx, cases, lines, out)
+    if with_pairs:
+        mism += corr_select_directed(ctx)
+    return mism
+
+
+def _entry_is_mixed(e):
+    """a normalizer with a non-trivial linear part AND a non-zero translation (where R(x + t) and R x + t differ)"""
+    T = np.array(e["transformation"], dtype=float)
+    return not np.allclose(T[:3, :3], np.eye(3)) and not np.allclose(T[:3, 3] % 1, 0)
+
+
+def corr_select_directed(ctx, attempts=None):
+    """directed part: for every tabulated normalizer with a linear part and a translation, an occupation for which the MODEL
+    selects exactly that entry is searched (driver only), and the real selection + application is run on it"""
+    N = norm_tables()
+    attempts = attempts or ctx.n(120, 500)
+    rng = np.random.default_rng(ctx.seed + 5656)
+    lines, cases = [], []
+    for n in range(1, 231):
+        entries = N.get(n, [])
+        if not any(_entry_is_mixed(e) for e in entries):
+            continue
+        for _ in range(attempts):
+            occ = random_occupancy(n, rng)
+            if not occ:
+                continue
+            atoms, fr, letters = rational_crystal(n, occ, rng)
+            lines.append("select %s %s %s" % (";".join(perm_str(e["permutations"]) for e in entries) or "-",
+                                              ",".join(str(ord(c)) for c in letters), ",".join(str(int(z)) for z in atoms.get_atomic_numbers())))
+            cases.append((n, atoms, fr, letters, entries))
+    if not lines:
+        return []
+    out = driver(lines)
+    seen, pick = set(), []
+    for k, ((n, atoms, fr, letters, entries), o) in enumerate(zip(cases, out)):
+        if not o.startswith("ok "):
+            continue
+        idx = int(o.split(" ")[1])
+        if idx == 0 or (n, idx) in seen or not _entry_is_mixed(entries[idx - 1]):
+            continue
+        seen.add((n, idx))
+        pick.append(k)
+    total = sum(1 for n in range(1, 231) for e in N.get(n, []) if _entry_is_mixed(e))
+    ctx.coverage["mixed_normalizers_selected_by_a_directed_case"] = "%d of %d" % (len(seen), total)
+    return _run_select_cases(ctx, [cases[k] for k in pick], [lines[k] for k in pick], [out[k] for k in pick])
+
+
+def _run_select_cases(ctx, cases, lines, out):
+    from matid.symmetry.symmetryanalyzer import SymmetryAnalyzer
+    from matid.utils.exceptions import MatIDError
+    from affine import from_4x4
     mism = []
     second = []
     for (n, atoms, fr, letters, entries), o, line in zip(cases, out, lines):
